@@ -26,6 +26,8 @@ REGISTRY = {
     "S01": ("checks.extra_checks", "s01"),
     "C04": ("checks.arith_checks", "c04"),
     "C05": ("checks.arith_checks", "c05"),
+    "C12": ("checks.controlb_checks", "c12"),
+    "C13": ("checks.controlb_checks", "c13"),
     "C14": ("checks.arith_checks", "c14"),
     "C17": ("checks.versions_checks", "c17"),
     "C19": ("checks.versions_checks", "c19"),
